@@ -195,8 +195,14 @@ func c12Conc(c *caseCtx) (res caseResult) {
 		return
 	}
 	nA := 1 + r.Intn(5)
+	if r.Intn(6) == 0 {
+		nA = 65 + r.Intn(60) // a large subscriber population
+	}
 	nB := 2 + r.Intn(5)
 	per := 5 + r.Intn(56)
+	if nA > 64 {
+		nB, per = 1+r.Intn(2), 60+r.Intn(90)
+	}
 	subs := make([]*esSub, nA)
 	pids := make([]*actor.PID, nA)
 	for i := range subs {
